@@ -190,9 +190,9 @@ Proof.
 Qed.
 
 (* 5. BOUNDED: the WHOLE function (all keys, all twelve substitutions in order) on the finite family
-      Model/C04_Sweep.family_quick (6 248 messages) = 35 keys x {lower, UPPER, Capitalised, digit-suffixed} x 12 renderings x
-      values / one key x every class representative of the generated sets at lengths 1 and 2 / 35 keys x
-      contexts x masks: outside the zones of the known findings exactly the value is replaced, and a
+      Model/C04_Sweep.family_quick (801 messages) = the complement of the universal theorems 8: the six keys that contain another key x {lower, UPPER,
+      Capitalised, digit-suffixed} x 12 renderings; every key x 4 renderings; one key x class representatives of the generated
+      sets at lengths 1 and 2; 35 keys x another context and mask: outside the zones of the known findings exactly the value is replaced, and a
       second application changes nothing.  Checked by computation (vm_compute), finite, NOT universal. *)
 Theorem C04_mask_whole_bounded : forall c, In c family_quick -> in_zone (case_msg c) = false ->
   mask_password (case_msg c) (case_mask c) = case_want c.
@@ -202,7 +202,7 @@ Theorem C04_idempotent_bounded : forall c, In c family_quick -> in_zone (case_ms
   mask_password (mask_password (case_msg c) (case_mask c)) (case_mask c) = mask_password (case_msg c) (case_mask c).
 Proof. exact idempotent_bounded. Qed.
 Print Assumptions C04_idempotent_bounded.
-Theorem C04_family_size : N.of_nat (length family_quick) = 6248 /\ (exists c, In c family_quick /\ in_zone (case_msg c) = false).
+Theorem C04_family_size : N.of_nat (length family_quick) = 801 /\ (exists c, In c family_quick /\ in_zone (case_msg c) = false).
 Proof. exact family_nonvacuous. Qed.
 Print Assumptions C04_family_size.
 
